@@ -143,11 +143,11 @@ def messageWriteP (m : Msg) (fd : Handle) : Prog Bool := do
         | [] => pure false
         | h :: rest => do
           let line := h.key ++ [58, 32] ++ h.val ++ [10]
-          let r ← call (.fprintf newfd line.length)
+          let r ← call (.fprintf newfd line)
           if isOk r then hdrs rest else pure true
       let herr ← hdrs byId
       let err1 ← (if herr then pure true else do
-        let r ← call (.fprintf newfd (1 + m.body.length))
+        let r ← call (.fprintf newfd ([10] ++ m.body))
         if !isOk r then pure true
         else
           let r ← call (.fflush newfd)
@@ -257,14 +257,14 @@ def writefd (tmpdir : Bytes) : Prog (Option Handle) :=
     | _ => pure none
 
 /-- The `write` loop of `message_get_fd`. -/
-def writeAll (fd : Handle) : Nat → Nat → Prog Bool
+def writeAll (fd : Handle) : Nat → Bytes → Prog Bool
   | 0, _ => pure true
-  | fuel + 1, len =>
-    if len == 0 then pure false
+  | fuel + 1, data =>
+    if data.isEmpty then pure false
     else do
-      let r ← call (.write fd len)
+      let r ← call (.write fd data)
       match r with
-      | .ok n => if n == 0 then pure true else writeAll fd fuel (len - n)
+      | .ok n => if n == 0 then pure true else writeAll fd fuel (data.drop n)
       | _ => pure true
 
 /-- `message_get_fd(msg, env, dobody)` for the message (`part = none`) or an attachment. -/
@@ -278,7 +278,7 @@ def messageGetFd (env : PEnv) (ms : MsgSt) (part : Option Msg) (dobody : Bool) :
         match f with
         | none => pure none
         | some fd =>
-          let e ← writeAll fd (body.length + 1) (cstr body).length
+          let e ← writeAll fd (body.length + 1) (cstr body)
           if e then
             let _ ← call (.close fd)
             pure none
